@@ -159,7 +159,33 @@ def record_ctor_config(c):
     c.ensure("dimensionality_follows_the_strict_flag", num(c.getattr(rec, "dimensionality")) == (2 if not strict else 2))
     c.canary("canary_always_strict", z3.BoolVal(c.getattr(rec, "strict") is True))
 
+
+@contract(P, "RecordTensor.reconstrain[storage not initialised yet]", [(INF, "RecordTensor.reconstrain"), (INF, "ShapedTensor.reconstrain")], min_obligations=2)
+def record_reconstrain_uninit(c):
+    """adding, editing and removing a constraint on an observation dimension never fails merely because the storage is not
+    initialised yet (None, or the empty tensor the reducers start from): the bookkeeping is updated - shifted past the
+    time axis - and the time constraint is left alone"""
+    storage = c.choice("storage", ["none", "empty"])
+    owner, rec, dt, dur, incl, N0, ptr, D = build(c, storage)
+    size = c.int("size")
+    c.require(size >= 1)
+    dim = c.choice("dim", [0, -1])
+    out = c.outcome(c.getattr(rec, "reconstrain"), dim, size)
+    c.expect_return(out, "adding_a_constraint_does_not_fail")
+    if not out.ok:
+        return
+    key = dim + 1 if dim >= 0 else dim
+    cons = owner.fields["_x_constraints"]
+    c.ensure("constraint_recorded_past_the_time_axis", key in cons and z3.is_true(z3.simplify(num(cons[key]) == size.z)))
+    c.ensure("time_constraint_untouched", num(cons[0]) == num(N0))
+    recorded = key in cons
+    out2 = c.outcome(c.getattr(rec, "reconstrain"), dim, None)
+    c.expect_return(out2, "removing_it_again_does_not_fail")
+    c.ensure("constraint_removed", key not in owner.fields["_x_constraints"])
+    c.canary("canary_nothing_recorded", z3.BoolVal(not recorded))
+
 MUTANTS = [
+    dict(file=INF, func="RecordTensor.reconstrain", old="        if not self._ignore(self.__data):\n            self.align()", new="        if self.__data is not None:\n            self.align()", contracts=["RecordTensor.reconstrain[storage not initialised yet]"], name="seed C13g: reconstrain aligns (and fails on) empty storage"),
     dict(file=INF, func="RecordTensor.__init__", old="            strict=strict,\n            live=live,", new="            live=live,", contracts=["RecordTensor.__init__[configuration reaches the base class]"], name="seed C13f: strict flag not forwarded to the base class"),
     dict(file=INF, func="_constraints_consistent", old="        elif hypoth[dim] == size:\n            continue\n", new="", contracts=["_constraints_consistent"], name="seed C13e: a dimension named twice is a conflict even when the sizes agree"),
     dict(file=INF, func="RecordTensor.duration@setter", old='        value = argtest.gte("duration", value, 0, float)\n', new='        value = argtest.gte("duration", value, 0, float)\n        if value == self.__duration:\n            return\n', contracts=["RecordTensor.inclusive@setter", "RecordTensor.duration@setter"], name="seed C13b/C14b: duration setter returns early when unchanged (the inclusive setter relies on it to resize)"),
